@@ -449,8 +449,11 @@ func c19Check(res *vfResult, ch c19Chan, st *c19State, final bool) {
 				return
 			}
 			if idx < last {
-				res.violate("ordered-channel-out-of-order", fmt.Sprintf("channel %q: sent message %d delivered after %d", ch.Label, idx, last))
-				return
+				// (only reached for ordered channels with a retransmission or lifetime limit: C19 speaks
+				// about reliable ordered channels; what pion/sctp does with abandoned messages under loss
+				// and duplication is counted, not judged)
+				res.stat("partially_reliable_ordered_channel_delivered_out_of_order_not_judged", 1)
+				continue
 			}
 			last = idx
 		}
